@@ -922,3 +922,6 @@ m('C14', 'Model._init_parameter: input array kept by reference (defect F23)', MO
 n('C14', 'Model._init_parameter: copy through .copy()', MODELS,
   "        values = np.array(values, dtype=np.float64, order='F')",
   "        values = np.asfortranarray(values, dtype=np.float64).copy(order='F')")
+m('C12', 'layered setter keeps the computed state (defect F24)', SIMS,
+  "        if layered != self._layered:\n            # Computed data belong to the other mode; remove them.\n            self.clean('computed')\n",
+  "", 'C12.OW3.mode')
